@@ -97,7 +97,15 @@ pub fn compare(a: &Obs, b: &Obs) -> Option<Diff> {
     if let Some(at) = e2::first_diff(&a.stdout, &b.stdout) {
         return Some(Diff { what: "stdout".into(), first_diff: at, excerpt_a: e2::excerpt(&a.stdout, at), excerpt_b: e2::excerpt(&b.stdout, at) });
     }
-    if let Some(at) = e2::first_diff(&a.stderr, &b.stderr) {
+    // stderr is the output of a command that fails (its error message); on success it is diagnostics, which the
+    // statement does not constrain (a logger with timestamps, say)
+    if a.code != Some(0) {
+        if let Some(at) = e2::first_diff(&a.stderr, &b.stderr) {
+            return Some(Diff { what: "stderr (error message of a failing command)".into(), first_diff: at, excerpt_a: e2::excerpt(&a.stderr, at), excerpt_b: e2::excerpt(&b.stderr, at) });
+        }
+    }
+    if false {
+        let at = 0;
         return Some(Diff { what: "stderr".into(), first_diff: at, excerpt_a: e2::excerpt(&a.stderr, at), excerpt_b: e2::excerpt(&b.stderr, at) });
     }
     let na: Vec<&String> = a.files.iter().map(|f| &f.0).collect();
